@@ -326,6 +326,9 @@ class C04(Check):
         import okdmr.dmrlib.hytera.pdu.location_protocol  # noqa
         import okdmr.dmrlib.hytera.pdu.radio_control_protocol  # noqa
         import okdmr.dmrlib.hytera.pdu.text_message_protocol  # noqa
+        from checks import c19
+
+        c19.preload_cotenant()
 
     def budget(self, tier):
         return 240.0 if tier == "quick" else 2400.0
@@ -333,7 +336,7 @@ class C04(Check):
     def arms(self, tier):
         q = tier == "quick"
         per = 24 if q else 200
-        arms = [("slot", 256), ("emb", 16), ("pdu", len(PDU_KINDS) * per), ("full-w2", len(PDU_KINDS) if q else 4 * len(PDU_KINDS))]
+        arms = [("slot", 256), ("emb", 16), ("smallmix", 32 if q else 400), ("pdu", len(PDU_KINDS) * per), ("full-w2", len(PDU_KINDS) if q else 4 * len(PDU_KINDS))]
         if not q:
             arms.append(("full-w3", 16))
         return arms
@@ -344,16 +347,39 @@ class C04(Check):
         if arm == "emb":
             return {"task": "emb", "range": [index << 12, (index + 1) << 12], "order_seed": streams["sched"].getrandbits(32)}
         w = streams["work"]
+        if arm == "smallmix":
+            ops = []
+            share = w.random() < 0.7  # the two codes see the same few information values (one radio system: same colour code, few data types)
+            infos = [w.randrange(128) for _ in range(w.choice([1, 3, 8]))]
+            for _ in range(w.choice([200, 1000, 3000])):
+                kd = w.choice(["SlotType", "EMB"])
+                n, k = (20, 8) if kd == "SlotType" else (16, 7)
+                x = w.random()
+                if x < 0.75:
+                    info = w.choice(infos) if share and w.random() < 0.8 else w.randrange(1 << k)
+                    nf = w.choice([0, 0, 0, 1, 1, 2, 3])
+                    ops.append([kd, f"cw:{info}:" + ",".join(str(p) for p in sorted(w.sample(range(n), nf)))])
+                else:
+                    ops.append([kd, format(w.getrandbits(n), f"0{n}b")])
+            return {"task": "smallmix", "ops": ops}
         if arm == "full-w3":
             kind = (DH + ["pi", "slc-null", "slc-act"])[index % 8]
             return {"task": "pdu", "kind": kind, "wire": make(kind, w), "pseed": w.getrandbits(32), "full": "w3", "tier": tier}
         kind = PDU_KINDS[index % len(PDU_KINDS)]
-        return {"task": "pdu", "kind": kind, "wire": make(kind, w), "pseed": w.getrandbits(32), "full": "w2" if arm == "full-w2" else None, "tier": tier}
+        case = {"task": "pdu", "kind": kind, "wire": make(kind, w), "pseed": w.getrandbits(32), "full": "w2" if arm == "full-w2" else None, "tier": tier}
+        if streams["knobs"].random() < 0.15:
+            from checks import c19
+
+            # the receiving application also uses other parts of the library (other PDU types, CRCs, codecs) before and between these receptions
+            case["cotenant"] = c19.gen_cotenant(streams["cotenant"], n=w.choice([4, 10, 20]), prefer=["CRC", "Header", "Rate", "HRNP", "HDAP", "CSBK", "LinkControl", "Burst"])
+        return case
 
     def sample(self, case):
         return {k: v for k, v in case.items() if k in ("task", "kind", "wire", "range", "full", "ops")}
 
     def simplify(self, case):
+        if case.get("cotenant"):
+            yield {kk: v for kk, v in case.items() if kk != "cotenant"}
         io = case.get("inplace_ops") or []
         if len(io) > 1:
             yield dict(case, inplace_ops=io[-1:])
@@ -379,7 +405,9 @@ class C04(Check):
         kf = known.load()
 
         def fail(oracle, site, detail, sub, sig):
-            key = (oracle, site, bool(sig.get("check_zero")), bool(sig.get("reser_differs")))
+            ent = known.match(kf, "C04", {"oracle": oracle, "site": site, "sig": sig})
+            # one record per (oracle, site, known finding that explains it / none): an unexplained violation is never counted into an explained one
+            key = (oracle, site, ent["id"] if ent else None)
             if key in seen:
                 seen[key]["count"] = seen[key].get("count", 1) + 1
                 return
@@ -391,6 +419,51 @@ class C04(Check):
             seen[key] = v
 
         task = case["task"]
+        if task == "smallmix":
+            # one receiver process parses slot-type words AND embedded-signalling words, interleaved in a seeded order (the sweeps above use
+            # one code per process): whichever code, information value or word comes first must not matter to the other
+            from okdmr.dmrlib.etsi.fec.golay_20_8_7 import Golay2087
+            from okdmr.dmrlib.etsi.fec.quadratic_residue_16_7_6 import QuadraticResidue1676
+            from okdmr.dmrlib.etsi.layer2.pdu.embedded_signalling import EmbeddedSignalling
+            from okdmr.dmrlib.etsi.layer2.pdu.slot_type import SlotType
+
+            tab = {"SlotType": (Golay2087, SlotType, 20, 8, "fec_parity_ok"), "EMB": (QuadraticResidue1676, EmbeddedSignalling, 16, 7, "emb_parity_ok")}
+            ops = case["ops"]
+            cwsets = {}
+            for wpos, (kd, spec) in enumerate(ops):
+                FEC, PDU, n, k, ind = tab[kd]
+                if kd not in cwsets:  # built on first use of that code in this process (part of the history, like in a real receiver)
+                    cwsets[kd] = {ba2int(bitarray(FEC.generate(int2ba(m, k)).tolist())) for m in range(1 << k)}
+                if spec.startswith("cw:"):  # codeword of this information value, with these positions inverted
+                    _, info, flips = spec.split(":")
+                    wd = bitarray(FEC.generate(int2ba(int(info), k)).tolist())
+                    for fp in (int(x) for x in flips.split(",") if x):
+                        wd.invert(fp)
+                else:
+                    wd = bitarray(spec)
+                wi = ba2int(wd)
+                res["evals"] += 1
+                try:
+                    got = bool(getattr(PDU.from_bits(wd.copy()), ind))
+                except Exception:
+                    got = None
+                member = wi in cwsets[kd]
+                if got is None:
+                    if member:
+                        fail("C04.small-word-membership", f"{kd}:codeword-raises", f"{kd} codeword {wd.to01()} raised while parsing (call #{wpos} of a mixed slot-type/EMB history)",
+                             {"task": "smallmix", "ops": [list(o) for o in ops[: wpos + 1]]}, {"kind": kd, "check_zero": False})
+                    continue
+                if got != member:
+                    zero = not wd[k:].any()
+                    fail("C04.small-word-membership", f"{kd}:{'accepts-non-codeword' if got else 'rejects-codeword'}",
+                         f"{kd} received word {wd.to01()}: {ind}={got}, word is {'a' if member else 'not a'} codeword of the FEC (call #{wpos} of a mixed slot-type/EMB history)",
+                         {"task": "smallmix", "ops": [list(o) for o in ops[: wpos + 1]]}, {"kind": kd, "check_zero": zero and not member})
+                res["cov"].add(f"{kd}|mixed|{int(member)}")
+            res.fault("mixed_code_history", len(ops))
+            log.add(0, task, "smallmix", len(ops))
+            res["ops"] = len(ops)
+            res["digest"] = log.digest()
+            return res
         if task in ("slot", "emb"):
             if task == "slot":
                 from okdmr.dmrlib.etsi.fec.golay_20_8_7 import Golay2087 as FEC
@@ -446,6 +519,13 @@ class C04(Check):
         chkset = set(chk)
         codepos = {p: i for i, p in enumerate(order)}
         sub0 = {"task": "pdu", "kind": kind, "wire": case["wire"]}
+        co = case.get("cotenant") or []
+        if co:
+            from checks import c19
+
+            sub0["cotenant"] = co
+            c19.run_cotenant(co[: len(co) // 2])
+            res.fault("cotenant_library_calls", len(co))
         try:
             base, ind0 = parse(kind, wire.copy())
         except Exception as e:
@@ -517,6 +597,8 @@ class C04(Check):
                     res.fault("crafted_burst", len(crafted))
         dropped = 0
         for pn, (cls, p) in enumerate(pats):
+            if co and pn == len(pats) // 2:
+                c19.run_cotenant(co[len(co) // 2:])
             if pn % 64 == 63:  # a failing parse (truncated word) between receptions: whatever it leaves behind must not matter
                 try:
                     parse(kind, wire[: max(0, n // 2 - 1)].copy())
@@ -550,14 +632,16 @@ class C04(Check):
             check_zero = not any(c[i] for i in chk)
             try:
                 wq = reserialise(kind, q)
-                reser = len(wq) != len(c) or any(wq[i] != c[i] for i in range(n) if i not in chkset)
+                reser_pos = [i for i in range(n) if i not in chkset and (i >= len(wq) or wq[i] != c[i])] + ([-1] if len(wq) != len(c) else [])
+                reser = bool(reser_pos)
             except Exception:
-                reser = True
+                reser, reser_pos = True, [-2]
             res["cov"].add(f"{kind}|{cls}|{hit}|accepted-{'equal' if same_fields else 'different'}-fields")
             fail("C04.corruption-accepted-equal-fields" if same_fields else "C04.silent-accept", f"{kind}:{cls}",
                  f"{kind}: wire {case['wire']} with bits {list(p)} inverted is accepted (indicator True) with {'equal' if same_fields else 'different'} field values"
                  f"{' [received check field all-zero]' if check_zero else ''}{' [accepted PDU re-serialises differently from the received bits]' if reser else ''}",
-                 dict(sub0, ops=[list(p)], pclass=cls), {"kind": kind, "check_zero": check_zero, "reser_differs": reser})
+                 dict(sub0, ops=[list(p)], pclass=cls), {"kind": kind, "check_zero": check_zero, "reser_differs": reser, "reser_pos": reser_pos[:40],
+                                                         "fields": "equal" if same_fields else "different", "flipped": list(p)[:40]})
         # the clean word again after this reception history (corrupted receptions, failing parses): what the library serialised must still
         # parse back with its indicator true and the same field values - a long-lived receiver sees exactly this sequence
         if "ops" not in case or case.get("hist"):
